@@ -364,6 +364,12 @@ impl CompressedUsedLeafsIndexes {
     }
 }
 
+/// Verification hook: the values of this module's private constants as compiled.
+#[cfg(hbs_lms_verif)]
+pub(crate) fn verif_constants() -> [(&'static str, u64); 1] {
+    [("PARAM_SET_END", PARAM_SET_END as u64)]
+}
+
 #[cfg(test)]
 mod tests {
     use super::{CompressedParameterSet, ReferenceImplPrivateKey};
